@@ -16,7 +16,7 @@ Raw == FamilyCases(FamilyName)
 CaseOf(x) ==
   LET f == Finish(x.ast)
   IN [fam |-> FamilyName, ast |-> f.ast, ng |-> f.ng, names |-> f.names, fl |-> x.fl,
-      hays |-> SetToSeq(x.hays)]
+      sp |-> IF "sp" \in DOMAIN x THEN x.sp ELSE 0, hays |-> SetToSeq(x.hays)]
 
 \* A numbered reference beyond the group count is not a backreference (Annex B reads it as an
 \* octal escape, u-mode rejects it), so such trees are not patterns of the family.
